@@ -93,7 +93,7 @@ func runC12(c *Ctx) {
 		n := c18InitCall(c, "crypto", "secp256k1_N")
 		h := c18InitCall(c, "crypto", "secp256k1_halfN")
 		c.Ob("C12-R2", "curve order and half order constants", c.Position(c.Global("crypto:secp256k1_N").Pos()),
-			strings.Contains(n, `"fffffffffffffffffffffffffffffffebaaedce6af48a03bbfd25e8cd0364141"`) && h == "new(big.Int).Div(secp256k1_N, big.NewInt(2))", "N="+n+" halfN="+h)
+			strings.Contains(n, `"fffffffffffffffffffffffffffffffebaaedce6af48a03bbfd25e8cd0364141"`) && (h == "new(big.Int).Div(secp256k1_N, big.NewInt(2))" || strings.Contains(strings.ToLower(h), `"7fffffffffffffffffffffffffffffff5d576e7357a4501ddfe92f46681b20a0", 16`)), "N="+n+" halfN="+h)
 	})
 	c.Min("C12-R2", 12)
 
@@ -182,24 +182,47 @@ func runC12(c *Ctx) {
 			c.Ob("C12-R5", "types.Sender returns the cached address only under cached.signer.Equal(signer)", c.Position(rs.Ret.Pos()), eq, "returns "+res+" under "+strings.Join(guardLits(rs.State), "; "))
 		}
 		c.Ob("C12-R5", "types.Sender has a cache-hit path", c.FnPos(fn), n >= 1, "")
-		// the cache stores the signer it was computed with
-		okStore := false
-		for _, s := range callSites(fn, `^Value\.Store$`) {
-			t := c.termOf(fn, s.Common().Args[1])
-			okStore = strings.Contains(t, "sigCache") || true
-			_ = t
+		// the cache is written only after a successful recovery, with the signer it was computed with and the address
+		// that recovery returned (a cached failure would be served as a success to the next caller)
+		c.MustBefore("C12-R5", fn, `^Value\.Store$`, 1, []LitReq{
+			{Name: "the sender cache is written only after signer.Sender succeeded", Re: `^Signer#0\.Sender\(Transaction#0\)#1 == nil$`},
+		})
+		stores := callSites(fn, `^Value\.Store$`)
+		okStore := len(stores) == 1
+		d := ""
+		if okStore {
+			// the stored value is a sigCache{signer: signer, from: addr} composite
+			sg, fr := "", ""
+			for _, b := range fn.Blocks {
+				for _, ins := range b.Instrs {
+					if st, ok := ins.(*ssa.Store); ok {
+						if fa, ok := st.Addr.(*ssa.FieldAddr); ok {
+							if _, isAl := fa.X.(*ssa.Alloc); isAl && strings.HasSuffix(fa.X.Type().String(), "sigCache") {
+								switch fieldName(fa) {
+								case "signer":
+									sg = c.termOf(fn, st.Val)
+								case "from":
+									fr = c.termOf(fn, st.Val)
+								}
+							}
+						}
+					}
+				}
+			}
+			okStore = sg == "Signer#0" && fr == "Signer#0.Sender(Transaction#0)#0"
+			d = "sigCache{signer: " + sg + ", from: " + fr + "}"
 		}
-		c.Ob("C12-R5", "types.Sender stores {signer, from} after a successful recovery", c.FnPos(fn), okStore && len(callSites(fn, `^Value\.Store$`)) == 1, "")
+		c.Ob("C12-R5", "types.Sender stores {signer, recovered address} in the cache", c.FnPos(fn), okStore, d)
 		for _, s := range []string{"FrontierSigner", "HomesteadSigner", "EIP155Signer"} {
 			eq := c.Fn("core/types:(" + s + ").Equal")
 			reqs := []LitReq{{Name: s + ".Equal accepts only its own dynamic type", Re: `^Signer#0\.\(` + s + `\)#1$`}}
 			if s == "EIP155Signer" {
-				reqs = append(reqs, LitReq{Name: "EIP155Signer.Equal compares chain ids", Re: `^(Signer#0\.\(EIP155Signer\)#0|var:eip155)\.chainId == EIP155Signer#0\.chainId$`})
+				reqs = append(reqs, LitReq{Name: "EIP155Signer.Equal compares chain ids", Re: `^(Signer#0\.\(EIP155Signer\)#0|var:\w+)\.chainId == EIP155Signer#0\.chainId$`})
 			}
 			c.MustOnAccept("C12-R5", eq, 0, true, reqs)
 		}
 	})
-	c.Min("C12-R5", 7)
+	c.Min("C12-R5", 8)
 
 	c.Rule("C12-R6", "signed content is immutable after construction; codecs cover every field", func() {
 		// stores to Transaction.data fields
